@@ -1,6 +1,6 @@
 (* The case interpreter of the correspondence check: one text line in, one canonical text line out.
    The Rust harness (`impldrv`) implements the same protocol on top of the real library. No proofs here. *)
-Require Import SD.Base SD.Text SD.Codes SD.Header.
+Require Import SD.Base SD.Text SD.Codes SD.Header SD.Name SD.RData SD.Packet SD.PktText.
 From Coq Require Import String.
 Open Scope N_scope.
 
@@ -131,6 +131,105 @@ Definition run_buildhdr (args : list (list byte)) : list byte :=
   | _ => s2b "BADCASE"
   end.
 
+(* ---- packet cases ---- *)
+(* PARSE hex: Packet::parse, canonical dump *)
+Definition run_parse (args : list (list byte)) : list byte :=
+  match map hex_to_bytes args with
+  | [Some d] => out_line (parse_packet d) (fun p => unwords (packet_toks p))
+  | _ => s2b "BADCASE"
+  end.
+(* NAME hex pos: Name::parse at an offset *)
+Definition run_name (args : list (list byte)) : list byte :=
+  match args with
+  | [h; p] => match hex_to_bytes h, hex_to_N p with
+              | Some d, Some pos => out_line (parse_name d pos) (fun '(ls, e) => unwords (name_toks ls ++ [N_to_hex e]))
+              | _, _ => s2b "BADCASE" end
+  | _ => s2b "BADCASE"
+  end.
+(* RR hex pos: ResourceRecord::parse at an offset *)
+Definition run_rr (args : list (list byte)) : list byte :=
+  match args with
+  | [h; p] => match hex_to_bytes h, hex_to_N p with
+              | Some d, Some pos => out_line (parse_rr d pos) (fun '(r, e) => unwords (rr_toks r ++ [N_to_hex e]))
+              | _, _ => s2b "BADCASE" end
+  | _ => s2b "BADCASE"
+  end.
+(* BUILD mode PKT...: build_bytes_vec (P) / build_bytes_vec_compressed (C) of a packet assembled from its description *)
+Definition run_build (args : list (list byte)) : list byte :=
+  match args with
+  | mode :: rest =>
+    match r_packet rest with
+    | Some (p, []) =>
+      if tok_eqb mode "P" then out_line (write_packet p) bytes_to_hex
+      else if tok_eqb mode "C" then out_line (write_packet_compressed p) bytes_to_hex
+      else s2b "BADCASE"
+    | _ => s2b "BADCASE"
+    end
+  | _ => s2b "BADCASE"
+  end.
+
+(* RT mode PKT...: serialise (P plain / C compressed), then parse the produced bytes *)
+Definition run_rt (args : list (list byte)) : list byte :=
+  match args with
+  | mode :: rest =>
+    match r_packet rest with
+    | Some (p, []) =>
+      let w := if tok_eqb mode "C" then write_packet_compressed p else write_packet p in
+      match w with
+      | Ok b => s2b "OK " ++ bytes_to_hex b ++ s2b " | " ++ out_line (parse_packet b) (fun p => unwords (packet_toks p))
+      | Err e => err_line e | Panic s => s2b "PANIC" | OutOfFuel => s2b "HANG"
+      end
+    | _ => s2b "BADCASE"
+    end
+  | _ => s2b "BADCASE"
+  end.
+
+(* REPARSE hex: parse, then re-serialise the parsed packet both ways and parse each result *)
+Definition reparse_leg (w : outcome (list byte)) : list byte :=
+  match w with
+  | Ok b => out_line (parse_packet b) (fun p => unwords (packet_toks p))
+  | Err e => s2b "W" ++ err_line e | Panic s => s2b "PANIC" | OutOfFuel => s2b "HANG"
+  end.
+Definition run_reparse (args : list (list byte)) : list byte :=
+  match map hex_to_bytes args with
+  | [Some d] =>
+    match parse_packet d with
+    | Ok p => s2b "OK " ++ unwords (packet_toks p) ++ s2b " | " ++ reparse_leg (write_packet p) ++ s2b " | "
+              ++ reparse_leg (write_packet_compressed p)
+    | Err e => err_line e | Panic s => s2b "PANIC " ++ N_to_hex s | OutOfFuel => s2b "HANG"
+    end
+  | _ => s2b "BADCASE"
+  end.
+
+(* BUILDW mode kind start storage PKT...: the writer-based entry points.
+   kind V = Vec<u8> holding `storage` (append-only Write, plain only); G = Cursor<Vec<u8>> over `storage` positioned at
+   `start` (growable); F = Cursor<&mut [u8]> over `storage` positioned at `start` (fixed); S = &mut storage[start..] (fixed,
+   Write only, plain only). Result: final storage and position, or the error. *)
+Fixpoint zeros (n : nat) : list byte := match n with O => [] | S k => x00 :: zeros k end.
+Definition overwrite (storage : list byte) (start : N) (msg : list byte) : list byte :=
+  let pre := firstn (N.to_nat start) storage in
+  let pad := zeros (N.to_nat start - List.length storage) in
+  pre ++ pad ++ msg ++ skipn (N.to_nat (start + len msg)) storage.
+Definition write_into (kind : list byte) (start : N) (storage msg : list byte) : outcome (list byte * N) :=
+  if tok_eqb kind "V" then Ok (storage ++ msg, len storage + len msg)
+  else if tok_eqb kind "G" then Ok (overwrite storage start msg, start + len msg)
+  else if start + len msg <=? len storage then Ok (overwrite storage start msg, start + len msg)
+  else Err FailedToWrite.
+Definition run_buildw (args : list (list byte)) : list byte :=
+  match args with
+  | mode :: kind :: st :: sto :: rest =>
+    match hex_to_N st, hex_to_bytes sto, r_packet rest with
+    | Some start, Some storage, Some (p, []) =>
+      let w := if tok_eqb mode "C" then write_packet_compressed p else write_packet p in
+      match w with
+      | Ok msg => out_line (write_into kind start storage msg) (fun '(s, e) => unwords [bytes_to_hex s; N_to_hex e])
+      | Err e => err_line e | Panic s => s2b "PANIC" | OutOfFuel => s2b "HANG"
+      end
+    | _, _, _ => s2b "BADCASE"
+    end
+  | _ => s2b "BADCASE"
+  end.
+
 Definition run_line (line : list byte) : list byte :=
   match tokens line with
   | [] => []
@@ -138,6 +237,14 @@ Definition run_line (line : list byte) : list byte :=
     if tok_eqb cmd "CODE" then run_codes args
     else if tok_eqb cmd "MATCH" then run_match args
     else if tok_eqb cmd "HDR" then run_hdr args
+    else if tok_eqb cmd "PARSE" then run_parse args
+    else if tok_eqb cmd "PARSEM" then run_parse args
+    else if tok_eqb cmd "NAME" then run_name args
+    else if tok_eqb cmd "RR" then run_rr args
+    else if tok_eqb cmd "BUILD" then run_build args
+    else if tok_eqb cmd "RT" then run_rt args
+    else if tok_eqb cmd "REPARSE" then run_reparse args
+    else if tok_eqb cmd "BUILDW" then run_buildw args
     else if tok_eqb cmd "PEEK" then run_peek args
     else if tok_eqb cmd "FLAGS" then run_flags args
     else if tok_eqb cmd "BUILDHDR" then run_buildhdr args
